@@ -95,7 +95,8 @@ pub fn run_case(out: &mut Out, id: u64, brick: f64, src_idx: usize, init: Candle
 				10 => lu * (1.0 + brick) * (1.0 + brick),
 				_ => price * (1.0 + brick * 0.6 * r.gauss()),
 			};
-			let target = if target.is_finite() && target > 0.0 { target } else { price };
+			// (finite and positive in the precision of the build: a target beyond f32::MAX would be an infinite price)
+			let target = if target.is_finite() && target > 0.0 && ((target as V) as f64).is_finite() && (target as V) > 0.0 { target } else { price };
 			price = target;
 			let vol = if r.chance(1, 5) { 0.0 } else { 1.0 + r.below(100) as f64 };
 			// a candle whose selected source equals the target (plain sources; composed sources get the same four prices)
